@@ -1,6 +1,7 @@
 use crate::engine::{ReplayEntry, Run};
 
 pub mod c01;
+pub mod c03;
 pub mod c11;
 pub mod c12;
 
@@ -13,6 +14,7 @@ pub struct Property {
 pub fn all() -> Vec<Property> {
     vec![
         Property { id: "C01", run: c01::run, replays: c01::replays },
+        Property { id: "C03", run: c03::run, replays: c03::replays },
         Property { id: "C11", run: c11::run, replays: c11::replays },
         Property { id: "C12", run: c12::run, replays: c12::replays },
     ]
